@@ -43,6 +43,7 @@ import (
 	"github.com/versity/versitygw/s3api/utils"
 	"github.com/versity/versitygw/s3err"
 	"github.com/versity/versitygw/s3response"
+	"github.com/versity/versitygw/verifhook"
 )
 
 type Posix struct {
@@ -388,6 +389,7 @@ func (p *Posix) CreateBucket(ctx context.Context, input *s3.CreateBucketInput, a
 		return fmt.Errorf("mkdir bucket: %w", err)
 	}
 
+	verifhook.At("posix.createbucket.made")
 	if doChown {
 		err := os.Chown(bucket, uid, gid)
 		if err != nil {
@@ -475,6 +477,7 @@ func (p *Posix) DeleteBucket(_ context.Context, bucket string) error {
 	if err != nil {
 		return err
 	}
+	verifhook.At("posix.deletebucket.checked")
 
 	// Remove the bucket
 	err = os.RemoveAll(bucket)
@@ -1776,7 +1779,9 @@ func (p *Posix) CompleteMultipartUpload(ctx context.Context, input *s3.CompleteM
 		return nil, fmt.Errorf("set etag attr: %w", err)
 	}
 
+	verifhook.At("posix.cmu.beforelink")
 	err = f.link()
+	verifhook.At("posix.cmu.linked")
 	if err != nil {
 		return nil, fmt.Errorf("link object in namespace: %w", err)
 	}
@@ -3051,7 +3056,9 @@ func (p *Posix) PutObject(ctx context.Context, po s3response.PutObjectInput) (s3
 		}
 	}
 
+	verifhook.At("posix.putobject.beforelink")
 	err = f.link()
+	verifhook.At("posix.putobject.linked")
 	if errors.Is(err, syscall.EEXIST) {
 		return s3response.PutObjectOutput{
 			ETag:      etag,
